@@ -473,6 +473,28 @@ func main() {
 	}
 	b.WriteString("def tlsUpgradeDefaultDeadlineSeconds : Nat := " + ds[0] + "\n\n")
 
+	// structural facts (cmd/facts/structure.go)
+	need := func(recv, name string) *ast.FuncDecl {
+		fd := p.method(recv, name)
+		if fd == nil {
+			// a renamed or removed function breaks only the properties whose model depends on it
+			return &ast.FuncDecl{Body: &ast.BlockStmt{}}
+		}
+		return fd
+	}
+	b.WriteString("/-! ## structural facts about the concurrency- and I/O-critical functions -/\n")
+	b.WriteString("def sendSessionUnderSendMu : Bool := " + leanBool(sendSessionUnderSendMu(need("channel", "sendSession"))) + "\n")
+	b.WriteString("def pendingLookupDeleteOneRegion : Bool := " + leanBool(pendingLookupDeleteOneRegion(need("channel", "trySubmitCommandResult"))) + "\n")
+	b.WriteString("def pendingCleanupConditional : Bool := " + leanBool(pendingCleanupConditional(need("channel", "processCommand"))) + "\n")
+	b.WriteString("def writeResumesAfterShortWrite : Bool := " + leanBool(writeResumesAfterShortWrite(need("ctxConn", "Write"))) + "\n")
+	b.WriteString("def readBudgetRearmed : Bool := " + leanBool(readBudgetRearmed(need("tcpTransport", "Receive"))) + "\n")
+	rft := need("", "receiveFromTransport")
+	b.WriteString("def receiverClosesOnError : Bool := " + leanBool(receiverClosesOnError(rft)) + "\n")
+	b.WriteString("def receiverClosesOnOddSession : Bool := " + leanBool(receiverClosesOnOddSession(rft)) + "\n")
+	b.WriteString("def wsForcesUnderlyingDeadline : Bool := " + leanBool(wsForcesUnderlyingDeadline(need("websocketTransport", "Send"))) + "\n")
+	b.WriteString("def finishDrainsTerminalState : Bool := " + leanBool(finishDrainsTerminalState(need("channel", "receiveSession"))) + "\n")
+	b.WriteString("def serveReturnsClosedAfterClose : Bool := " + leanBool(serveReturnsClosedAfterClose(need("Server", "ListenAndServe"))) + "\n\n")
+
 	b.WriteString("end LimeModel.Generated\n")
 	if *outp == "" {
 		fmt.Print(b.String())
